@@ -142,6 +142,8 @@ func (x *Exec) callExternal(st *State, call *ast.CallExpr, callee *types.Func, p
 			out = append(out, x.freshResult(st, sig.Results().At(i).Type(), "io_r", st.alloc))
 		}
 		return out
+	case "flag.Parse":
+		return nil
 	case "runtime.NumCPU":
 		n := x.declareOnce("numcpu", SInt) // constant for the life of the process
 		st.assume(Cmp(">=", n, Int(1)), "NumCPU>=1")
